@@ -69,11 +69,15 @@ fn canon_into(v: &Value, out: &mut Vec<String>) {
             }
         }
         ValueKind::Map => {
-            let keys: Vec<Value> = v.try_iter().map(|it| it.collect()).unwrap_or_default();
-            let mut ents: Vec<(String, String)> = keys
-                .iter()
-                .map(|k| (canon_value(k), canon_value(&v.get_item(k).unwrap_or_default())))
-                .collect();
+            // the entries as the object enumerates them (a NaN key cannot be looked up again in a hashed map)
+            let pairs: Vec<(Value, Value)> = match v.as_object().and_then(|o| o.try_iter_pairs()) {
+                Some(it) => it.collect(),
+                None => {
+                    let keys: Vec<Value> = v.try_iter().map(|it| it.collect()).unwrap_or_default();
+                    keys.into_iter().map(|k| { let x = v.get_item(&k).unwrap_or_default(); (k, x) }).collect()
+                }
+            };
+            let mut ents: Vec<(String, String)> = pairs.iter().map(|(k, x)| (canon_value(k), canon_value(x))).collect();
             ents.sort();
             out.push("M".into());
             out.push(ents.len().to_string());
